@@ -379,7 +379,16 @@ class Ctx:
                     self.known_hits.append(msg)
                     print(msg, flush=True)
                 return False
-        self.violations.append({'what': what, 'signature': signature, 'replay': replay, 'found': True})
+        # one report per distinct signature; keep the smallest replay
+        size = len(json.dumps(replay, default=str))
+        for v in self.violations:
+            if v['signature'] == signature:
+                v['count'] = v.get('count', 1) + 1
+                if size < v['size']:
+                    v.update({'what': what, 'replay': replay, 'size': size})
+                return True
+        self.violations.append({'what': what, 'signature': signature, 'replay': replay, 'found': True,
+                                'size': size, 'count': 1})
         return True
 
     def broken(self, kind: str, name: str, detail):
@@ -398,7 +407,7 @@ class Ctx:
                                     'replay': {'broken': self.broken_items}})
         for i, v in enumerate(self.violations):
             path = VERIF / 'replays' / f'{self.pid}-{self.seed}-{i}.json'
-            rep = {'property': self.pid, 'tier': self.tier, 'seed': self.seed, 'what': v['what'],
+            rep = {'property': self.pid, 'tier': self.tier, 'seed': self.seed, 'what': v['what'], 'failing_cases_with_this_signature': v.get('count', 1),
                    'signature': v['signature'], 'broken': self.broken_items,
                    'how_to_replay': f'./check {self.pid} --replay {path}'}
             rep.update(v['replay'])
